@@ -75,10 +75,15 @@ GetterChecks(c, x) ==
 RedecChecks(c, x, tab) ==
   LET r(o, name) == <<Chk("C04", "redecode_" \o name \o "_ok", o.kind = "ok"),
                       Chk("C04", "redecode_" \o name \o "_fields", o.kind = "ok" => tab[o.core] = c),
-                      Chk("C15", "redecode_" \o name \o "_equal", o.kind = "ok" => o.eq /\ o.hash_eq)>>
+                      Chk("C15", "redecode_" \o name \o "_equal", o.kind = "ok" => o.eq /\ o.hash_eq),
+                      Chk("C15", "equal_redecoded_record_has_identical_pairs:" \o name,
+                          (o.kind = "ok" /\ o.eq) => (tab[o.core].pairs = c.pairs /\ tab[o.core].enc = c.enc))>>
   IN r(x.redec.bytes, "bytes") \o r(x.redec.text, "text") \o r(x.redec.json, "json")
      \o r(x.redec.json_value, "json_value") \o r(x.redec.json_reader, "json_reader")
-     \o <<Chk("C07", "seq_survives_encode_decode",
+     \o <<Chk("C12", "json_form_parses_back_to_an_equal_record",
+              \A o \in {x.redec.json, x.redec.json_value, x.redec.json_reader} : o.kind = "ok" /\ o.eq /\ tab[o.core] = c),
+          Chk("C12", "text_form_parses_back_to_an_equal_record", x.redec.text.kind = "ok" /\ x.redec.text.eq /\ tab[x.redec.text.core] = c),
+          Chk("C07", "seq_survives_encode_decode",
               \A o \in {x.redec.bytes, x.redec.text, x.redec.json} : o.kind = "ok" /\ tab[o.core].seq = c.seq),
           Chk("C12", "text_without_prefix_parses", x.redec.text_noprefix.kind = "ok"
                        /\ tab[x.redec.text_noprefix.core] = c /\ x.redec.text_noprefix.eq),
@@ -189,7 +194,9 @@ OutcomeChecks(kt, b, o, D, tab, pAcc, pRej, F) ==
          LET c == tab[o.core] IN
          <<Chk("C03", "rec_accessor_panics", c.panics = <<>>),
            Chk("C09", "size_exact", c.size = Len(c.enc)),
-           Chk("C09", "size_le_300", Len(c.enc) <= MaxSize)>>
+           Chk("C09", "size_le_300", Len(c.enc) <= MaxSize),
+           \* C04 speaks about every input the implementation accepts, whatever the specification thinks of it
+           Chk("C04", "accepted_input_reencodes_to_itself", o.rest <= Len(b) /\ c.enc = SubSeq(b, 1, Len(b) - o.rest))>>
          \o When(D.verdict = "accept",
            <<Chk("C04", "reencode_reproduces_input", c.enc = SubSeq(b, 1, D.consumed)),
              Chk("C04", "fields_match_parse", c.seq = D.seq /\ c.pairs = D.pairs /\ c.sig = D.sig),
